@@ -261,9 +261,9 @@ func main() {
 		for i := 0; i < nRaft; i++ {
 			emit(runConcurrent(rng.Int63(), true))
 		}
-		nRest := 150
+		nRest := 700
 		if *tier == "thorough" {
-			nRest = 1500
+			nRest = 4000
 		}
 		if *oRest >= 0 {
 			nRest = *oRest
